@@ -162,6 +162,15 @@ fn run_case(c: &Value) -> Value {
     other_unsigned.insert("unsigned".into(), cj(json!({"age": 99, "redacted_because": {"type": "m.room.redaction"}})));
     let rh_unsigned = reference_hash(&other_unsigned, &r).ok();
     let ch_unsigned = content_hash(&other_unsigned).ok().map(|h| h.encode());
+    // the same event carrying `hashes` but neither `signatures` nor `unsigned` (an event re-hashed before it is signed)
+    let mut bare = signed.clone();
+    bare.remove("signatures");
+    bare.remove("unsigned");
+    if !bare.contains_key("hashes") {
+        bare.insert("hashes".into(), cj(json!({"sha256": "c3RhbGUgaGFzaCBvZiBhbiBlYXJsaWVyIHZlcnNpb24gISE"})));
+    }
+    let rh_bare = reference_hash(&bare, &r).ok();
+    let ch_bare = content_hash(&bare).ok().map(|h| h.encode());
     // ---- the step
     let step = c["step"][0].as_str().unwrap();
     let arg = c["step"][1].as_str().unwrap();
@@ -210,7 +219,7 @@ fn run_case(c: &Value) -> Value {
         "content_hash": ch, "stored_hash": stored, "reference_hash": rh,
         "chpre": serde_json::to_string(&Value::Object(chpre)).unwrap(),
         "rhpre": serde_json::to_string(&Value::Object(rhpre)).unwrap(),
-        "rh_redacted": rh_redacted, "rh_unsigned": rh_unsigned, "ch_unsigned": ch_unsigned,
+        "rh_redacted": rh_redacted, "rh_unsigned": rh_unsigned, "ch_unsigned": ch_unsigned, "ch_bare": ch_bare, "rh_bare": rh_bare,
     })
 }
 
